@@ -265,7 +265,8 @@ static Buffer v_mk_buffer(Length argc, Length pos, const UByte *data)
 	b->argv = v; b->argc = argc; b->pos = pos;
 	return b;
 }
-/* stoSize is not in stubs.h: the allocator stub hands out objects of exactly the requested size */
+#ifdef C_BUFFER_STO_REFUSING
+/* stoSize for this allocator model (stubs.h defines its own inside V_STUB_STO): blocks are exactly as large as requested */
 ULong stoSize(Pointer p)
 {
 #ifdef NATIVE_REPLAY
@@ -275,7 +276,6 @@ ULong stoSize(Pointer p)
 	return __CPROVER_OBJECT_SIZE(p);
 #endif
 }
-#ifdef C_BUFFER_STO_REFUSING
 /* Allocator model for the C17 readers (used INSTEAD of stubs.h V_STUB_STO): as the real store.c,
  * stoAlloc(0) returns NULL, and a request larger than the address space is REFUSED (the real one
  * calls the installed handler compStoreError -> comsgFatal: a diagnostic and a non-zero exit).
